@@ -179,6 +179,11 @@ class _Pack:
             callee = None
             if isinstance(fn, ast.Attribute) and self_attr(fn):
                 callee = self.repo.resolve(self.cls, self_attr(fn), "method")
+            elif isinstance(fn, ast.Attribute) and isinstance(fn.value, (ast.Attribute, ast.Name)):
+                # a method of a private helper object (`self._memory.release(x)`, or `memory = self._memory; memory.release(x)`)
+                helper = self._helper_class(fn.value, f)
+                if helper is not None:
+                    callee = self.repo.resolve(helper, fn.attr, "method")
             elif isinstance(fn, ast.Name):
                 # a helper function of the repository: its body is analysed with the tags bound to its parameters
                 callee = self._module_func(f, fn.id)
@@ -217,6 +222,26 @@ class _Pack:
         for c in ast.iter_child_nodes(e):
             if isinstance(c, ast.expr):
                 self.ev(c, env, f, depth)
+        return None
+
+    def _helper_class(self, recv, f):
+        """Class of `self.<field>` (or of a local name bound to it) when the constructors assign it a private repo class."""
+        field = self_attr(recv) if isinstance(recv, ast.Attribute) else None
+        if field is None and isinstance(recv, ast.Name):
+            for n in fn_walk(f.node):
+                if isinstance(n, ast.Assign) and any(isinstance(t, ast.Name) and t.id == recv.id for t in n.targets) and self_attr(n.value):
+                    field = self_attr(n.value)
+        if field is None:
+            return None
+        for k in self.repo.mro(self.cls):
+            init = k.methods.get("__init__")
+            if init is None:
+                continue
+            for n in fn_walk(init.node):
+                if isinstance(n, ast.Assign) and any(self_attr(t) == field for t in n.targets) and isinstance(n.value, ast.Call) and isinstance(n.value.func, ast.Name):
+                    name = n.value.func.id
+                    if name.startswith("_") and self.repo.has_cls(name):
+                        return self.repo.cls(name)
         return None
 
     def _touches(self, callee):
@@ -656,6 +681,13 @@ def _value_domain(repo, c, f, e, depth=0):
             return _info_domain(repo, c, e.args[1], f)
         if name in ("strip_time", "copy", "asarray", "array") and e.args:
             return _value_domain(repo, c, f, e.args[0], depth + 1)
+        if isinstance(e.func, ast.Attribute) and self_attr(e.func):
+            # a helper method of the class: the domain of what it returns (all returns must agree)
+            callee = repo.resolve(c, self_attr(e.func), "method")
+            if callee is not None and callee is not f:
+                doms = {_value_domain(repo, c, callee, r.value, depth + 1) for r in fn_walk(callee.node) if isinstance(r, ast.Return) and r.value is not None}
+                if len(doms) == 1:
+                    return doms.pop()
     return None
 
 
